@@ -9,12 +9,19 @@
 (* Lines (every field is present on every line):                              *)
 (*   reset   trace kind ps init      new server; `init` registered before use *)
 (*   mut     op(add|remove|replace) id                                        *)
-(*   start                          a manual traversal starts (empty cursor)  *)
-(*   page    ids more err capped    one ListX call of the traversal           *)
-(*   iter    cls seq man err        iterator run to completion from a cursor  *)
+(*   start   hid                    a manual traversal starts (empty cursor)  *)
+(*                                  while a visibility filter between server  *)
+(*                                  and client hides the ids `hid` (<<>>: no  *)
+(*                                  filter): what is registered as far as the *)
+(*                                  client can tell is reg \ hid              *)
+(*   page    ids more err capped    one ListX call of the traversal (ids: the *)
+(*                                  items that arrived; more: it carries a    *)
+(*                                  cursor - also when ids is empty)          *)
+(*   iter    cls hid seq man err    iterator run to completion from a cursor  *)
 (*                                  and manual paging from the same cursor,   *)
-(*                                  no mutation in between (cls "start": from *)
-(*                                  the empty cursor)                         *)
+(*                                  both under the filter hid, no mutation in *)
+(*                                  between (cls "start": from the empty      *)
+(*                                  cursor)                                   *)
 (*   iterrun trav seq err           the same history replayed on a fresh      *)
 (*                                  server through the iterator: output for   *)
 (*                                  the trav-th traversal                     *)
@@ -26,20 +33,21 @@ VARIABLES l,
           reg,     \* registered ids, from the recorded mutations
           act,     \* a traversal is in progress
           stable,  \* ids registered at every moment since the traversal started
+          hid,     \* ids hidden by the visibility filter during the traversal
           seen,    \* concatenation of the pages of the traversal
           mutd,    \* the registered set changed since the traversal started
-          hist,    \* completed traversals without mutation: <<set, sequence>>
+          hist,    \* completed traversals without mutation: <<visible set, sequence>>
           travs    \* sequences of all completed traversals, in order (for iterrun)
-mvars == <<l, reg, act, stable, seen, mutd, hist, travs>>
+mvars == <<l, reg, act, stable, hid, seen, mutd, hist, travs>>
 
 Range(q) == {q[i] : i \in DOMAIN q}
 Count(q, x) == Cardinality({i \in DOMAIN q : q[i] = x})
 ExactlyTheSet(q, S) == Range(q) = S /\ Len(q) = Cardinality(S)
 
-MInit == /\ l = 1 /\ reg = {} /\ act = FALSE /\ stable = {} /\ seen = <<>> /\ mutd = FALSE
+MInit == /\ l = 1 /\ reg = {} /\ act = FALSE /\ stable = {} /\ hid = {} /\ seen = <<>> /\ mutd = FALSE
          /\ hist = <<>> /\ travs = <<>> /\ MarkInit
 
-Reset(e) == /\ reg' = AsSet(e.init) /\ act' = FALSE /\ stable' = {} /\ seen' = <<>> /\ mutd' = FALSE
+Reset(e) == /\ reg' = AsSet(e.init) /\ act' = FALSE /\ stable' = {} /\ hid' = {} /\ seen' = <<>> /\ mutd' = FALSE
             /\ hist' = <<>> /\ travs' = <<>>
 
 Mut(e) ==
@@ -48,9 +56,9 @@ Mut(e) ==
   /\ stable' = IF e.op = "remove" THEN stable \ {e.id} ELSE stable
   /\ mutd' = (mutd \/ (act /\ reg1 # reg))
   /\ Check(l, "NoCrash", e.err = "")
-  /\ UNCHANGED <<act, seen, hist, travs>>
+  /\ UNCHANGED <<act, hid, seen, hist, travs>>
 
-Start(e) == /\ act' = TRUE /\ stable' = reg /\ seen' = <<>> /\ mutd' = FALSE
+Start(e) == /\ act' = TRUE /\ stable' = reg /\ hid' = AsSet(e.hid) /\ seen' = <<>> /\ mutd' = FALSE
             /\ UNCHANGED <<reg, hist, travs>>
 
 \* a response that is a crash, a hang, or leaves the server unable to answer a ping
@@ -64,33 +72,36 @@ Page(e) ==
   /\ Check(l, "EndsWithEmptyCursor", e.err = "" /\ ~e.capped)
   /\ seen' = seen1
   /\ IF ended
-     THEN /\ Check(l, "ExactlyOnceNoMutation", ~mutd => ExactlyTheSet(seen1, reg))
-          /\ Check(l, "StableExactlyOnce", \A i \in stable : Count(seen1, i) = 1)
+     THEN /\ Check(l, "ExactlyOnceNoMutation", ~mutd => ExactlyTheSet(seen1, reg \ hid))
+          /\ Check(l, "StableExactlyOnce", \A i \in stable \ hid : Count(seen1, i) = 1)
           \* one stable order: an unmutated traversal of the same set always lists the same sequence
-          /\ Check(l, "StableOrder", ~mutd => \A k \in DOMAIN hist : hist[k][1] = reg => hist[k][2] = seen1)
-          /\ hist' = IF mutd THEN hist ELSE Append(hist, <<reg, seen1>>)
+          /\ Check(l, "StableOrder", ~mutd => \A k \in DOMAIN hist : hist[k][1] = reg \ hid => hist[k][2] = seen1)
+          /\ hist' = IF mutd THEN hist ELSE Append(hist, <<reg \ hid, seen1>>)
           /\ travs' = Append(travs, seen1)
           /\ act' = FALSE
      ELSE /\ act' = (e.err = "" /\ ~e.capped)
           /\ UNCHANGED <<hist, travs>>
-  /\ UNCHANGED <<reg, stable, mutd>>
+  /\ UNCHANGED <<reg, stable, hid, mutd>>
 
+\* the iterator yields the same sequence as manual paging - whatever the pages looked like on arrival
+\* (full, shortened or empty with a cursor: e.hid says what the filter removed)
 Iter(e) ==
+  LET vis == reg \ AsSet(e.hid) IN
   /\ Check(l, "NoCrash", ~Dead(e))
   /\ Check(l, "IteratorEqualsManual", e.err = "" /\ e.seq = e.man)
-  /\ Check(l, "ExactlyOnceNoMutation", (e.cls = "start" /\ e.err = "") => ExactlyTheSet(e.man, reg))
-  /\ Check(l, "StableOrder", (e.cls = "start" /\ e.err = "") => \A k \in DOMAIN hist : hist[k][1] = reg => hist[k][2] = e.man)
-  /\ UNCHANGED <<reg, act, stable, seen, mutd, hist, travs>>
+  /\ Check(l, "ExactlyOnceNoMutation", (e.cls = "start" /\ e.err = "") => ExactlyTheSet(e.man, vis))
+  /\ Check(l, "StableOrder", (e.cls = "start" /\ e.err = "") => \A k \in DOMAIN hist : hist[k][1] = vis => hist[k][2] = e.man)
+  /\ UNCHANGED <<reg, act, stable, hid, seen, mutd, hist, travs>>
 
 IterRun(e) ==
   /\ Check(l, "NoCrash", ~Dead(e))
   /\ Check(l, "IteratorEqualsManual", e.trav \in DOMAIN travs => (e.err = "" /\ e.seq = travs[e.trav]))
-  /\ UNCHANGED <<reg, act, stable, seen, mutd, hist, travs>>
+  /\ UNCHANGED <<reg, act, stable, hid, seen, mutd, hist, travs>>
 
 Cursor(e) ==
   /\ Check(l, "NoCrash", ~Dead(e))
   /\ Check(l, "BadCursorRejected", e.cls = "malformed" => e.err = "invalid-params")
-  /\ UNCHANGED <<reg, act, stable, seen, mutd, hist, travs>>
+  /\ UNCHANGED <<reg, act, stable, hid, seen, mutd, hist, travs>>
 
 MNext == /\ l <= NLines
          /\ l' = l + 1
